@@ -29,6 +29,9 @@ func runC06(c *Ctx) {
 	// the barrier sees every dispatch: the step reserves its slot before it reads the status
 	c.ruleReserveThenCheck("R06.7")
 	c.ruleDecrementAfterClose("R06.8")
+	// a barrier only ends if the wake-ups it depends on are really raised: the signal send is attempted under the
+	// (blocking) read lock on every call
+	c.ruleProtectedSends("R06.9")
 }
 
 // predicateLeaves maps the operands of the barrier predicates to an abstract state.
